@@ -1,5 +1,5 @@
 """C14 — in a table-model join the model gets the right rows and arguments, only those (see c14lib)."""
-import os, json
+import os, json, re
 from engines.common import Run, ch_obligations, VERIF
 
 def gen():
@@ -132,6 +132,23 @@ def run(tier):
     except Exception as e:  # noqa
         import traceback
         run.error('join-kind family crashed: %r %s' % (e, traceback.format_exc()[-300:]))
+    # a model column that the ON clause maps to a table column AND that WHERE sets to a constant (column first and constant first)
+    try:
+        n_, pr_ = c14lib.mapped_column_family()
+        run.validated += n_
+        seen_ = set()
+        for p_ in pr_:
+            cls_ = re.sub(r"'[^']*'|\d+|\{.*?\}|\[.*?\]", '#', p_.split(': ', 1)[1])[:60]
+            if cls_ in seen_:
+                continue
+            seen_.add(cls_)
+            if len(seen_) <= 4:
+                run.counterexample('table-model-join:mapped-column:%s' % cls_, p_[:400], {'mapped_column': p_[:300]}, True)
+        run.ob('mapped-column-atoms:%d leaves (model column in ON and = constant in WHERE, both operand orders x every other atom x two-slot shapes x orders x frames)' % n_,
+               'counterexample' if pr_ else 'discharged', None)
+    except Exception as e:  # noqa
+        import traceback
+        run.error('mapped-column family crashed: %r %s' % (e, traceback.format_exc()[-300:]))
     run.finish()
 
 
@@ -139,6 +156,11 @@ def replay(path):
     r = json.load(open(path))
     print(json.dumps(r, indent=1))
     import re
+    if r['replay'].get('mapped_column'):
+        from harness import c14lib
+        n_, pr_ = c14lib.mapped_column_family()
+        print('native replay now: reproduced=%s %s' % (bool(pr_), pr_[:1]))
+        return 1 if pr_ else 0
     if r['replay'].get('join_kind_sql'):
         from harness import c14lib
         import re as _re
